@@ -28,7 +28,7 @@ import (
 // probes, two-way scans, every movement sequence up to a depth on every range, offsets
 // monotone. Damage: every byte of every checksummed block of the small tables altered.
 
-var c13Users = []string{"", "a", "aa", "aab", "ab", "b", "b\xff", "b\xff\xff", "c", "ca"}
+var c13Users = []string{"", "a", "aa", "aab", "ab", "b", "b\xff", "b\xff\xff", "c", "\xffa"}
 var c13Probes = []string{"", "a", "a\x00", "aaa", "ab", "abc", "b", "b\xfe", "b\xff", "b\xff\xff\xff", "bz", "c", "cb", "d", "\xff"}
 
 type c13Grid struct {
@@ -598,7 +598,7 @@ func init() {
 			c.Coverage["movement_depth"] = depth
 			c.Coverage["tasks"] = len(tasks)
 			c.SetExhaustive(exh && done == len(tasks))
-			c.Sample(map[string]any{"grid": grid[0].String(), "subset_mask": "0x2a5", "keys": []string{"", "aa", "b", "b\\xff\\xff", "ca"}})
+			c.Sample(map[string]any{"grid": grid[0].String(), "subset_mask": "0x2a5", "keys": []string{"", "aa", "b", "b\\xff\\xff", "\\xffa"}})
 			c.Coverage["rule"] = "states = tables built: every subset (1024) of a 10-key universe {'',a,aa,aab,ab,b,b\\xff,b\\xff\\xff,c,ca} with values {empty,3B,100B} by position, per grid point (block size x restart interval x compression x bloom x filter base x cache/pool x raw/internal keys); per table Find/FindKey/Get/OffsetOf for 25 probes and, for 49 ranges, every movement sequence of the stated depth over {First,Last,Next,Prev,Seek x6} against a cursor model; damage: every byte before the footer of the smallest subsets' tables altered with 3 patterns, whole battery re-run (only original pairs or corruption errors allowed)"
 			c.Assume = []string{"default strictness (block checksums verified)", "footer bytes are not checksummed and are not altered"}
 		},
